@@ -7,6 +7,32 @@ From Coq Require Import ZArith NArith List Bool.
 Import ListNotations.
 From V Require Import Model.Val Model.PyPrims Model.DiagCache Proofs.DiagCacheP Proofs.DiagCacheGenP Gen.DiagCacheGraph.
 
+(* ---- witnesses used by the non-vacuity examples ([*_hyps_sat]: one concrete instance meeting
+        ALL hypotheses of the theorem above it, jointly).  A chain html-like(5, no extension) ->
+        ".p"(2) -> ".s"(4) [-> 7, no extension]; a cache holding "A.s" and another diagram's "B.p";
+        a three-node converter graph producing that chain, with two entry points. ---- *)
+Definition ex_c5 : conv := {| cv_id := 5; cv_ext := None; cv_fc := false |}.
+Definition ex_c2 : conv := {| cv_id := 2; cv_ext := Some [46;112]%N; cv_fc := true |}.
+Definition ex_c4 : conv := {| cv_id := 4; cv_ext := Some [46;115]%N; cv_fc := true |}.
+Definition ex_c7 : conv := {| cv_id := 7; cv_ext := None; cv_fc := false |}.
+Definition ex_chain : list conv :=
+  [ {| cv_id := 5; cv_ext := None; cv_fc := false |};
+    {| cv_id := 2; cv_ext := Some [46;112]%N; cv_fc := true |};
+    {| cv_id := 4; cv_ext := Some [46;115]%N; cv_fc := true |} ].
+Definition ex_cache (n : str) : option str :=
+  if str_eqb n [65;46;115]%N then Some [1]%N else if str_eqb n [66;46;112]%N then Some [2]%N else None.
+(* ex_cache without the other diagram's file "B.p" *)
+Definition ex_cache_other (n : str) : option str :=
+  if list_eq_dec N.eq_dec n [66;46;112]%N then None else ex_cache n.
+Definition ex_graph : list node :=
+  [ {| n_conv := ex_c4; n_dep := None |};
+    {| n_conv := ex_c2; n_dep := Some 4%N |};
+    {| n_conv := ex_c5; n_dep := Some 2%N |} ].
+Definition ex_entries : list (str * N) := [([115]%N, 4%N); ([104]%N, 5%N)].
+(* a rank for the regenerated graph of /repo: the length of the walk from the converter *)
+Definition gen_rank (id : N) : nat :=
+  match walk (length gen_graph) gen_graph id with Some ch => length ch | None => O end.
+
 (* 1. __load_cache, every chain / cache / uuid: the result is built from the file
       <uuid><ext> of the FIRST converter of the chain that has a non-empty extension, a
       from_cache and whose file exists, run forward through the converters before it;
@@ -21,6 +47,7 @@ Theorem load_cache_spec : forall data convert from_cache chain (c : str -> optio
       /\ load_cache data convert from_cache chain c uuid = (names uuid chain, Err E_KeyError)).
 Proof. exact DiagCacheP.load_cache_spec. Qed.
 Print Assumptions load_cache_spec.
+(* no hypotheses; both disjuncts occur: see ex_hit (left) and ex_no_hit (right) at the end *)
 
 (* 1'. ... "identical to converting that cached file directly": on a chain without repeated
       converters the result equals convert_format(<hit format>, <requested format>, from_cache(file)). *)
@@ -31,6 +58,19 @@ Theorem cached_equals_direct_conversion : forall data convert from_cache uuid (c
   = rbind (from_cache (cv_id h) b) (convert_chain data convert (cv_id h) (pre ++ h :: post)).
 Proof. exact load_cache_is_direct_conversion. Qed.
 Print Assumptions cached_equals_direct_conversion.
+Example cached_equals_direct_conversion_hyps_sat :
+  let pre := [ex_c5; ex_c2] in let post := [ex_c7] in
+  NoDup (map cv_id (pre ++ ex_c4 :: post))
+  /\ eligible ex_c4 = Some [46;115]%N
+  /\ ex_cache ([65]%N ++ [46;115]%N) = Some [1]%N
+  /\ no_hit [65]%N ex_cache pre
+  /\ snd (load_cache val (sym_convert []) (sym_from_cache []) (pre ++ ex_c4 :: post) ex_cache [65]%N)
+     = Ok (VL [VZ 5; VL [VZ 2; VL [VZ 4; VS [1]%N]]]).
+Proof.
+  cbv zeta. split; [apply nodupN_NoDup; reflexivity|].
+  split; [reflexivity|]. split; [reflexivity|]. split; [|reflexivity].
+  intros cv e [<-|[<-|[]]]; vm_compute; intro H; inversion H; subst; reflexivity.
+Qed.
 
 (* 2. every file name opened on the cache handler is <uuid> ++ <extension of a converter of the chain> *)
 Theorem only_own_files : forall data convert from_cache chain (c : str -> option str) uuid n,
@@ -38,6 +78,9 @@ Theorem only_own_files : forall data convert from_cache chain (c : str -> option
   exists cv e, In cv chain /\ eligible cv = Some e /\ n = uuid ++ e.
 Proof. exact opened_own. Qed.
 Print Assumptions only_own_files.
+Example only_own_files_hyps_sat :
+  In [65;46;115]%N (fst (load_cache val (sym_convert []) (sym_from_cache []) ex_chain ex_cache [65]%N)).
+Proof. vm_compute. right; left; reflexivity. Qed.
 
 (* 2'. ... and such names identify the diagram: uuids contain no '.', extensions start with '.' *)
 Theorem own_names_injective : forall u u' e e' : str,
@@ -45,6 +88,11 @@ Theorem own_names_injective : forall u u' e e' : str,
   u ++ e = u' ++ e' -> u = u' /\ e = e'.
 Proof. exact name_split. Qed.
 Print Assumptions own_names_injective.
+(* (the theorem itself says that only instances with u = u' and e = e' exist) *)
+Example own_names_injective_hyps_sat :
+  let u := [65;66]%N in let e := [46;112;110;103]%N in
+  no_dot u = true /\ no_dot u = true /\ dot_ext e = true /\ dot_ext e = true /\ u ++ e = u ++ e.
+Proof. repeat split. Qed.
 
 (* 2''. never a file of another diagram: two caches that differ only in files named
        <other uuid><.ext> give the same names opened and the same result *)
@@ -56,6 +104,23 @@ Theorem never_another_diagrams_file : forall data convert from_cache uuid (c c' 
   load_cache data convert from_cache chain c uuid = load_cache data convert from_cache chain c' uuid.
 Proof. exact other_diagram_irrelevant. Qed.
 Print Assumptions never_another_diagrams_file.
+(* two caches that really differ (at "B.p"), uuid "A", the three-converter chain *)
+Example never_another_diagrams_file_hyps_sat :
+  no_dot [65]%N = true
+  /\ (forall cv e, In cv ex_chain -> eligible cv = Some e -> dot_ext e = true)
+  /\ (forall n, ex_cache n <> ex_cache_other n ->
+        exists uuid' e', n = uuid' ++ e' /\ no_dot uuid' = true /\ dot_ext e' = true /\ uuid' <> [65]%N)
+  /\ ex_cache [66;46;112]%N <> ex_cache_other [66;46;112]%N.
+Proof.
+  split; [reflexivity|]. split.
+  { intros cv e [<-|[<-|[<-|[]]]]; cbn; intro H; inversion H; subst; reflexivity. }
+  split.
+  { intros n H. unfold ex_cache_other in H.
+    destruct (list_eq_dec N.eq_dec n [66;46;112]%N) as [->|_]; [|congruence].
+    exists [66]%N, [46;112]%N. repeat split. discriminate. }
+  unfold ex_cache_other.
+  destruct (list_eq_dec N.eq_dec [66;46;112]%N [66;46;112]%N) as [_|Hn]; [cbn; discriminate|congruence].
+Qed.
 
 (* 3. render policy.  A KeyError raised by a converter while converting the cached file is
       treated by render() like a cache miss (`except KeyError: pass`); the statement says so. *)
@@ -73,21 +138,41 @@ Theorem render_policy : forall data convert from_cache g es allow uuid fresh f i
       /\ snd R = if allow then nocache else Err E_RuntimeError).
 Proof. exact render_cache_policy. Qed.
 Print Assumptions render_policy.
+(* entry "h" of ex_graph walks to ex_chain; with the cache of ex_hit the policy returns the hit *)
+Example render_policy_hyps_sat :
+  lookup_entry ex_entries [104]%N = Some 5%N
+  /\ walk (length ex_graph) ex_graph 5%N = Some ex_chain
+  /\ NoDup (map cv_id ex_chain)
+  /\ render val (sym_convert []) (sym_from_cache []) ex_graph ex_entries (Some [104]%N) (Some ex_cache)
+            false [65]%N (Err E_Other)
+     = ([[65;46;112]; [65;46;115]]%N, Ok (VL [VZ 5; VL [VZ 2; VL [VZ 4; VS [1]%N]]])).
+Proof.
+  split; [reflexivity|]. split; [reflexivity|]. split; [apply nodupN_NoDup; reflexivity|reflexivity].
+Qed.
 
+(* by definition of render (its branch for a known format and cache_ = None) *)
 Theorem render_without_cache : forall data convert from_cache g es allow uuid fresh f id chain,
   lookup_entry es f = Some id -> walk (length g) g id = Some chain ->
   render data convert from_cache g es (Some f) None allow uuid fresh
   = ([], rbind fresh (run_chain data convert chain)).
 Proof. exact render_nocache. Qed.
 Print Assumptions render_without_cache.
+Example render_without_cache_hyps_sat :
+  lookup_entry ex_entries [104]%N = Some 5%N /\ walk (length ex_graph) ex_graph 5%N = Some ex_chain.
+Proof. split; reflexivity. Qed.
 
+(* by definition of render (its branch for lookup_entry = None) *)
 Theorem render_unknown_format : forall data convert from_cache g es allow uuid fresh f cache_,
   lookup_entry es f = None ->
   render data convert from_cache g es (Some f) cache_ allow uuid fresh = ([], Err E_ValueError).
 Proof. exact render_unknown. Qed.
 Print Assumptions render_unknown_format.
+Example render_unknown_format_hyps_sat :
+  lookup_entry ex_entries [120]%N = None /\ lookup_entry gen_entries [120]%N = None.
+Proof. split; reflexivity. Qed.
 
 (* fmt=None (the Diagram object itself) bypasses the cache, as the code does *)
+(* by definition of render (its first branch; no hypotheses) *)
 Theorem render_no_format : forall data convert from_cache g es allow uuid fresh cache_,
   render data convert from_cache g es None cache_ allow uuid fresh = ([], fresh).
 Proof. exact render_none. Qed.
@@ -98,6 +183,8 @@ Print Assumptions render_no_format.
 Theorem walk_fuel_independent : forall g f id ch k, walk f g id = Some ch -> walk (f + k) g id = Some ch.
 Proof. exact walk_fuel_mono. Qed.
 Print Assumptions walk_fuel_independent.
+Example walk_fuel_independent_hyps_sat : walk 3 ex_graph 5%N = Some ex_chain.
+Proof. reflexivity. Qed.
 
 Theorem walk_terminates_on_ranked_graph : forall g (rank : N -> nat),
   (forall id n d, find_node g id = Some n -> n_dep n = Some d ->
@@ -105,6 +192,27 @@ Theorem walk_terminates_on_ranked_graph : forall g (rank : N -> nat),
   forall f id, find_node g id <> None -> (rank id < f)%nat -> exists ch, walk f g id = Some ch.
 Proof. exact walk_ranked. Qed.
 Print Assumptions walk_terminates_on_ranked_graph.
+(* the regenerated graph of /repo with rank = length of the walk (proof does not depend on the
+   shape of the graph beyond its being acyclic and closed) *)
+Example walk_terminates_on_ranked_graph_hyps_sat :
+  (forall id n d, find_node gen_graph id = Some n -> n_dep n = Some d ->
+                  find_node gen_graph d <> None /\ (gen_rank d < gen_rank id)%nat)
+  /\ find_node gen_graph 2%N <> None /\ (gen_rank 2%N < S (length gen_graph))%nat.
+Proof.
+  split.
+  - intros id n d F D.
+    pose proof (find_node_id _ _ _ F) as I.
+    assert (In n gen_graph) as Hin.
+    { clear D I. revert F. generalize gen_graph. induction l as [|m l IH]; cbn; [discriminate|].
+      destruct (N.eqb (cv_id (n_conv m)) id); intro H; [inversion H; now left|right; now apply IH]. }
+    clear F. cbn in Hin.
+    repeat (destruct Hin as [<-|Hin];
+            [cbn in D;
+             first [discriminate D
+                   |inversion D; subst; vm_compute; split; [intro X; discriminate X|repeat constructor]]|]).
+    destruct Hin.
+  - vm_compute. split; [intro X; discriminate X|repeat constructor].
+Qed.
 
 (* 4'. the converter graph of /repo as regenerated on this run (finite table: 7 entry points,
        7 converter objects at the time of writing): every entry point walks to the end within
@@ -115,14 +223,12 @@ Theorem generated_graph_wellformed : forall name id, In (name, id) gen_entries -
              /\ (forall cv e, In cv ch -> eligible cv = Some e -> dot_ext e = true).
 Proof. exact gen_graph_wellformed. Qed.
 Print Assumptions generated_graph_wellformed.
+Example generated_graph_wellformed_hyps_sat :
+  (exists name id, In (name, id) gen_entries) /\ (2 <= length gen_entries)%nat.
+Proof. vm_compute. split; [do 2 eexists; left; reflexivity|repeat constructor]. Qed.
 
-(* ---- non-vacuity: a hit behind a converter without extension, with another diagram's file present ---- *)
-Definition ex_chain : list conv :=
-  [ {| cv_id := 5; cv_ext := None; cv_fc := false |};
-    {| cv_id := 2; cv_ext := Some [46;112]%N; cv_fc := true |};
-    {| cv_id := 4; cv_ext := Some [46;115]%N; cv_fc := true |} ].
-Definition ex_cache (n : str) : option str :=
-  if str_eqb n [65;46;115]%N then Some [1]%N else if str_eqb n [66;46;112]%N then Some [2]%N else None.
+(* ---- non-vacuity: a hit behind a converter without extension, with another diagram's file present
+        (ex_chain / ex_cache are defined at the top of the file) ---- *)
 Example ex_hit :
   load_cache val (sym_convert []) (sym_from_cache []) ex_chain ex_cache [65]%N
   = ([[65;46;112]; [65;46;115]]%N,
